@@ -609,14 +609,14 @@ def compare_transcript(ctx, prop, transcript, classify, exe=None, test_re=None, 
     return results
 
 
-def generic_replay(ctx, path, hdir, test_re, prop, transcript):
+def generic_replay(ctx, path, hdir, test_re, prop, transcript, mode="spec"):
     rp = json.load(open(path))
     ops = [o[2:] if o.startswith("> ") else o for o in rp.get("ops", [])]
     exe = build_harness(ctx, hdir)
     if not exe or not build_driver(ctx):
         print("cannot build harness/driver: %s" % ctx.tie_failures)
         return 2
-    differs = replay_differs(ctx, exe, test_re, prop, ops, transcript)
+    differs = replay_differs(ctx, exe, test_re, prop, ops, transcript, mode=mode)
     d = ctx.out + "/shrink"
     print(open(d + "/" + transcript).read())
     print("---- specification ----")
